@@ -52,8 +52,12 @@ def cmd_preds(spec, lab, cmds, memo=None):
     return res
 
 
-def request_closure(spec, req):
+def request_closure(spec, req, parsed_all=False):
     labs = rs.closure(spec, rs.expand_request(spec, req))
+    if parsed_all and spec.get("defs") and any(p.get("use_defs") for p in spec["pkgs"].values()) and "//defs:gen" not in labs:
+        # `plz test //...` parses every package to find the tests, and parsing a package that
+        # subincludes //defs:gen builds it
+        labs.append("//defs:gen")
     # parse-time dependency on //defs:gen for packages that subinclude it
     if spec.get("defs"):
         for l in list(labs):
@@ -73,7 +77,7 @@ def read_trace_file(path):
         return None
 
 
-def oracle_c04(spec, req, res, log, tf_events, fresh=True, query=False, test=False):
+def oracle_c04(spec, req, res, log, tf_events, fresh=True, query=False, test=False, parsed_all=False):
     """Returns list of (class, detail)."""
     v = []
     cmds = cmd_targets(spec)
@@ -105,7 +109,7 @@ def oracle_c04(spec, req, res, log, tf_events, fresh=True, query=False, test=Fal
             for l in want:
                 if l not in starts:
                     v.append(("never-ran", "%s is in the requested closure, plz-out was empty, exit 0, but its command never ran" % l))
-        extra = [l for l in starts if l not in set(request_closure(spec, req))]
+        extra = [l for l in starts if l not in set(request_closure(spec, req, parsed_all))]
         for l in sorted(extra):
             v.append(("ran-unrequested", "%s ran but is not in the closure of the request" % l))
         if query:
@@ -287,7 +291,7 @@ def exec_case_c04(bindir, case, only_run=None):
                 vs = [(c, d) for (c, d) in oracle_c05(espec, case["req"], case["inj"], res, read_log(log)) if c in keep]
                 stats["failing_runs"] = stats.get("failing_runs", 0) + 1
             else:
-                vs = oracle_c04(espec, treq, res, read_log(log), None if (is_query or is_test) else read_trace_file(tf), fresh=not is_query, query=is_query, test=is_test)
+                vs = oracle_c04(espec, treq, res, read_log(log), None if (is_query or is_test) else read_trace_file(tf), fresh=not is_query, query=is_query, test=is_test, parsed_all=is_test and "//..." in run["args"])
             stats["test_runs"] = stats.get("test_runs", 0) + (1 if is_test else 0)
             st = res.stats
             stats["query_runs"] = stats.get("query_runs", 0) + (1 if is_query else 0)
